@@ -299,6 +299,14 @@ def check_restart_read(ctx, md, rid="R3", sites=None):
                 if kk is not None:
                     return ast.Constant(vals[kk])
                 return self.generic_visit(n)
+
+            def visit_Attribute(self, n):
+                # <engine>.k / <engine>.m of the engine object rebuilt from the checkpoint: the dissipation order it was constructed with (= the recorded `k`, C10-R9 /
+                # C12-R5 decide that the recorded settings reach the constructor) and the history length m = k + 1 (decided for XL_BOMD.__init__ by this rule set)
+                if n.attr in ("k", "m") and isinstance(n.value, ast.Name) and isinstance(rdefs.get(n.value.id), ast.Call) \
+                        and not norm(rdefs[n.value.id].func).startswith(("torch.", "dict", "int", "float", "len")):
+                    return ast.Constant(vals["k"] + (1 if n.attr == "m" else 0))
+                return self.generic_visit(n)
         import copy
         e2 = T().visit(copy.deepcopy(expr))
         env = {}
